@@ -11,7 +11,7 @@ NODE_KINDS_RAW = ("tag_edit", "len_edit", "content_edit", "zero_len_primitive", 
 # interior family: the outer TLV stays complete and exact (C06)
 INTERIOR = ("inner_len_edit", "node_delete_reframed", "children_truncate_reframed", "zero_len_primitive_reframed",
             "content_truncate_reframed", "control_value_damage", "node_duplicate_reframed", "tag_edit_reframed",
-            "content_edit", "inner_len_shrink", "envelope_emptied", "root_tag_edit")
+            "content_edit", "inner_len_shrink", "envelope_emptied", "root_tag_edit", "giant_integer")
 PDU_KINDS = ("truncate_stream", "insert_garbage", "random_blob", "pdu_duplicate", "pdu_reorder", "deep_nest", "byz_message", "giant_pending")
 
 PAGED_OID = b"1.2.840.113556.1.4.319"
@@ -145,6 +145,15 @@ def choose(rng, pdu, family):
         f.update(node=i, keep=rng.randrange(len(order[i].children)))
     elif kind == "control_value_damage":
         f.update(how=rng.choice(["empty", "short", "absent", "not_sequence", "inner_overrun"]))
+    elif kind == "giant_integer":
+        # an INTEGER / ENUMERATED (message id, limits, result code, version ...) of thousands of octets: legal BER, and beyond
+        # what the interpreter converts to decimal text without complaint
+        pref = [i for i in prims if order[i].cls == ber.UNIVERSAL and order[i].num in (2, 10)]
+        pool = pref if pref and rng.random() < 0.85 else prims
+        if not pool:
+            return None
+        f.update(node=rng.choice(pool), octets=rng.choice([1794, 1800, 2500, 6000]), first=rng.choice([0x01, 0x7F, 0xFF, 0x80]),
+                 fill=rng.choice([0x00, 0xFF, 0x55]))
     elif kind == "root_tag_edit":
         # the outermost identifier octets are replaced (content untouched): still one complete unit for any framer
         f.update(how=rng.choice(["hightag5", "hightag_pad", "application", "context", "primitive", "set", "hightag2"]))
@@ -288,6 +297,11 @@ def apply(pdu, f):
         if reframe:
             return splice(pdu, node, _hdr(node, len(content), pdu) + content, True)
         return pdu[:cut] + pdu[node.end :]
+    if base == "giant_integer":
+        if node is None or node.constructed:
+            return None
+        content = bytes([f.get("first", 1)]) + bytes([f.get("fill", 0)]) * (int(f.get("octets", 1800)) - 1)
+        return splice(pdu, node, _hdr(node, len(content), pdu) + content, True)
     if base == "root_tag_edit":
         ident_len = root.hl - _len_octets(pdu, root)
         rest = pdu[ident_len:]
